@@ -164,13 +164,20 @@ def handle : Handler := fun op inp =>
                    ("outInv", jBool (outInv b))]
   | "output.csv" => some do
       let t ← parseTree (← field inp "tree")
-      let taint ← natList (fieldD inp "taint" (Json.arr #[]))
+      -- readable level names as text: the model computes which confidence
+      -- columns `blob_to_df` makes categorical (`taintOf`)
+      let texts ← asList (asPair asNat asStr) (fieldD inp "readableText" (Json.arr #[]))
+      let textOf : Lvl → String := fun l => (texts.lookup l).getD ""
       let iters ← asNat (← field inp "bootstrapIteration")
       let results ← asList parseRecord (← field inp "results")
       let mname ← asOption asNat (fieldD inp "metadataName" Json.null)
       let flat ← asOption asBool (fieldD inp "flatten" Json.null)
       let ck := confidenceKey iters
+      let taint := taintOf textOf ck t.hierarchy
       return jObj [
+        ("taint", jNats taint),
+        ("confColumns", jList (fun l => Json.arr #[jNat l, jStr (dfConfColumn (textOf l) ck),
+            jStr (csvConfColumn (textOf l) ck)]) t.hierarchy),
         ("comments", jComments (csvComments t mname flat)),
         ("columns", jList jColumn (csvColumns t)),
         ("confIsCorrelation", jBool (ck == .avgCorrelation)),
